@@ -30,7 +30,7 @@ def corpus():
         "plan 500 %s mode=%s dur=30 dur=45" % (base, u),
         "run prop=C15 mode=file dur=1000 conc=3 file=c:400:3/100ms;c:30000:3/100ms body=5",   # run cut short in the middle of a stage
         "run prop=C15 mode=file dur=3000 conc=3 file=u:200:2;c:300:3/100ms;c:200:2/50ms body=5",
-    ]
+    ] + [c for c in _plan.cli_corpus() if "mode=file" in c]
 
 
 def generate(rng, tier):
@@ -43,7 +43,22 @@ def generate(rng, tier):
                                       "c:%d:2/50ms" % rng.choice([120, 200])]) for _ in range(k))
         out.append("run prop=C15 mode=file dur=%d conc=4 file=%s body=%d cancel=%d" % (
             rng.choice([400, 5000, 5000]), stages, rng.choice([0, 5, 30]), rng.choice([-1, -1, 250])))
+    # limits -> run options, through the real `run file <path>` command
+    for _ in range({"quick": 30, "thorough": 300, "search": 60}[tier]):
+        out.append(_plan.cli_case(rng, "file"))
+    for _ in range({"quick": 16, "thorough": 150, "search": 30}[tier]):
+        out.append(_plan.cli_verdict_case(rng))
     return out
+
+
+def compare(rec):
+    if rec["case"].startswith("cli "):
+        return _plan.cli_compare(rec)
+    if rec["model"] == "-":
+        return None
+    if rec["impl"] != rec["model"]:
+        return "model=%s impl=%s" % (rec["model"], rec["impl"])
+    return None
 
 
 def nontrivial_key(rec):
